@@ -31,30 +31,30 @@ def jResList : Option (List Res) → Json
 
 def keysOf (j : Json) : Option (List Nat) := if isNull (fld j "keys") then none else some (natsF j "keys")
 
-def imputeRat (j : Json) (m : Method) : List (Option Rat) :=
+def imputeRat (j : Json) (m : Method) : Except String (List (Option Rat)) :=
   let c := ratCol j "col"
   let const := optRat (fld j "const")
   let isInt := boolF j "isInt"
   match strF j "fw", keysOf j with
-  | "pd", none => pandasImpute ratOps m const c
-  | "pa", none => arrowImpute ratOps isInt m const c
-  | "py", none => dictImpute ratOps m const c
-  | "pd", some ks => pandasGrouped ratOps m const ks c
-  | "pa", some ks => arrowGrouped ratOps isInt m const ks c
+  | "pd", none => .ok (pandasImpute ratOps m const c)
+  | "pa", none => .ok (arrowImpute ratOps isInt m const c)
+  | "py", none => .ok (dictImpute ratOps m const c)
+  | "pd", some ks => .ok (pandasGrouped ratOps m const ks c)
+  | "pa", some ks => .ok (arrowGrouped ratOps isInt m const ks c)
   | "py", some ks => dictGrouped ratOps m const ks c
-  | _, _ => []
+  | _, _ => .error "unknown framework"
 
-def imputeStr (j : Json) (m : Method) : List (Option String) :=
+def imputeStr (j : Json) (m : Method) : Except String (List (Option String)) :=
   let c := strCol j "col"
   let const := optStr (fld j "const")
   match strF j "fw", keysOf j with
-  | "pd", none => pandasImpute strOps m const c
-  | "pa", none => arrowImpute strOps false m const c
-  | "py", none => dictImpute strOps m const c
-  | "pd", some ks => pandasGrouped strOps m const ks c
-  | "pa", some ks => arrowGrouped strOps false m const ks c
+  | "pd", none => .ok (pandasImpute strOps m const c)
+  | "pa", none => .ok (arrowImpute strOps false m const c)
+  | "py", none => .ok (dictImpute strOps m const c)
+  | "pd", some ks => .ok (pandasGrouped strOps m const ks c)
+  | "pa", some ks => .ok (arrowGrouped strOps false m const ks c)
   | "py", some ks => dictGrouped strOps m const ks c
-  | _, _ => []
+  | _, _ => .error "unknown framework"
 
 def handle (op : String) (j : Json) : Json :=
   match op with
@@ -78,11 +78,15 @@ def handle (op : String) (j : Json) : Json :=
       if strF j "kind" == "str" then
         match constantGuard m (optStr (fld j "const")) with
         | .error e => jErr e
-        | .ok _ => jObj [("ok", jArr ((imputeStr j m).map jOptStr))]
+        | .ok _ => match imputeStr j m with
+          | .ok l => jObj [("ok", jArr (l.map jOptStr))]
+          | .error e => jErr e
       else
         match constantGuard m (optRat (fld j "const")) with
         | .error e => jErr e
-        | .ok _ => jObj [("ok", jArr ((imputeRat j m).map jOptRat))]
+        | .ok _ => match imputeRat j m with
+          | .ok l => jObj [("ok", jArr (l.map jOptRat))]
+          | .error e => jErr e
   | "text" =>
     match (strsF j "ops").mapM Text.Op.ofString? with
     | none => jErr "unknown operation"
